@@ -64,3 +64,12 @@ $(eval $(call ENGINE,c20_oom,plain_malloc,plain))
 $(eval $(call ENGINE,c20_oom,asan_malloc,asan))
 .PHONY: c20
 c20: $(foreach v,plain asan plain_pma asan_pma plain_malloc asan_malloc,$(B)/bin/c20_oom_$(v))
+
+$(B)/gen/keygens.inc: mk/gen_keygens.py $(wildcard $(SRC)/include/sodium/*.h)
+	@mkdir -p $(dir $@)
+	@python3 mk/gen_keygens.py $(REPO) > $@.tmp && mv $@.tmp $@
+$(B)/obj/asan/c18_rng.o $(B)/obj/plain/c18_rng.o: $(B)/gen/keygens.inc
+$(eval $(call ENGINE,c18_rng,plain,plain))
+$(eval $(call ENGINE,c18_rng,asan,asan))
+.PHONY: c18
+c18: $(B)/bin/c18_rng_plain $(B)/bin/c18_rng_asan
